@@ -291,6 +291,7 @@ class Engine:
         self.solver.reset()
         self.pos = 0
         self.known = {}
+        self.pinned = {}          # expr id -> concrete value fixed on this path
         self.entangled = set()
         self.vars = {}      # name -> z3 const (creation order)
         self.goals = set()
@@ -329,6 +330,7 @@ class Engine:
             return self.concretize(v)
         if name in self.preset:
             self._assume(v == int(self.preset[name]))
+            self.pinned[v.get_id()] = int(self.preset[name])
             return int(self.preset[name])
         if self.pos < len(self.decisions):
             d = self.decisions[self.pos]
@@ -341,6 +343,7 @@ class Engine:
         self.pos += 1
         val = d.outcome
         self._assume(v == val)
+        self.pinned[v.get_id()] = val
         self._maybe_cut()
         return val
 
@@ -368,7 +371,12 @@ class Engine:
         return r == z3.sat
 
     def _maybe_cut(self):
-        if self.cut is not None and self.pos >= self.cut and self.pos >= len(self.decisions):
+        if self.cut is not None and self.cut != "marker" and self.pos >= self.cut and self.pos >= len(self.decisions):
+            raise Cut()
+
+    def shard_point(self):
+        """Harness-chosen sharding boundary (used with ``max_depth='marker'``)."""
+        if self.cut == "marker" and self.pos >= len(self.decisions):
             raise Cut()
 
     def branch(self, expr):
@@ -422,11 +430,15 @@ class Engine:
         e = z3.simplify(e)
         if z3.is_int_value(e):
             return e.as_long()
+        eid = e.get_id()
+        if eid in self.pinned:
+            return self.pinned[eid]
         if self.pos < len(self.decisions):
             d = self.decisions[self.pos]
             if d.i < len(d.alts):
                 self.pos += 1
                 self._assume(e == d.alts[d.i])
+                self.pinned[eid] = d.alts[d.i]
                 return d.alts[d.i]
             # look for a value not tried yet
             self.stats.model_queries += 1
@@ -445,6 +457,7 @@ class Engine:
             self.stats.solver_forks += 1
             self.pos += 1
             self._assume(e == v)
+            self.pinned[eid] = v
             self._maybe_cut()
             return v
         self.stats.model_queries += 1
@@ -455,6 +468,7 @@ class Engine:
         self.decisions.append(d)
         self.pos += 1
         self._assume(e == v)
+        self.pinned[eid] = v
         self._maybe_cut()
         return v
 
@@ -616,6 +630,9 @@ class ConcreteEngine:
 
     def note(self, key, value):
         self.notes[key] = value
+
+    def shard_point(self):
+        pass
 
     def run(self, fn):
         """Returns (result, violation-or-None)."""
